@@ -448,3 +448,24 @@ def run_seq_job(job, ops, run_case, depth=None):
     acc.extra["sequence_alphabet"] = len(ops)
     acc.extra["depth"] = depth
     return acc.result()
+
+
+def concur_jobs(n, curve=None, weight=4):
+    return [{"name": f"concurrent/{i}", "part": "concurcase", "idx": i, "curve": curve, "weight": weight} for i in range(n)]
+
+
+def run_concur_job(job, scens, run_case, prop, files):
+    """scens[idx] = {"threads": [(kind, case), (kind, case)], "warm": [(kind, case), ...]} - every interleaving (at most 1 / 2
+    preemptions, line granularity of `files`) of the ordinary single-case checks, each execution on a fresh process image"""
+    from vf import concur
+    acc = Acc(job)
+    scen = scens[job["idx"]]
+    bound = 1 if job["tier"] == "quick" else 2
+    hits = 2 if job["tier"] == "quick" else 3
+    ex = concur.explore_cases(acc, run_case, prop, scen, files, bound, max_hits=hits)
+    acc.ob("concurrent_calls", ex.executions)
+    acc.sample({"concurrent": [t[0] for t in scen["threads"]], "warm": [t[0] for t in scen.get("warm", [])], "executions": ex.executions,
+                "preemption_bound": bound, "preemption_offered_at_first_n_executions_of_a_line": hits})
+    acc.extra["preemption_bound"] = bound
+    acc.extra["line_hit_bound"] = hits
+    return acc.result()
